@@ -60,6 +60,7 @@ func c02Judge(w *mon.W, c c02Case, full bool) {
 
 	us := c.Us
 	grid := len(us) == 0
+	nOff := 0
 	if grid {
 		for u := -1.0; u <= max+1; u += 0.5 {
 			us = append(us, u)
@@ -67,6 +68,18 @@ func c02Judge(w *mon.W, c c02Case, full bool) {
 		for k := 0; k < 8; k++ {
 			us = append(us, w.Rng.Uniform(-1, max+1))
 		}
+		nOff = 8
+		// just below / above a few jump points, and far outside the range
+		for k := 0; k < 4; k++ {
+			g := float64(w.Rng.Intn(int(2*max)+1)) / 2
+			us = append(us, math.Nextafter(g, math.Inf(-1)), g-1e-12, g-1e-9, g-1e-6, math.Nextafter(g, math.Inf(1)))
+			nOff += 5
+		}
+		for _, f := range []float64{-1e6, 1e6, -0x1p62, 0x1p62, -0x1p63, 0x1p63, -1e19, 1e19, -1e300, 1e300, math.Inf(-1), math.Inf(1)} {
+			us = append(us, f)
+			nOff++
+		}
+		w.Hit("far-and-near-jump-points")
 	}
 	bad := func(kind, msg string, u float64) {
 		w.Violate(kind, msg, c02Case{N1, N2, T, []float64{u}})
@@ -74,10 +87,11 @@ func c02Judge(w *mon.W, c c02Case, full bool) {
 	prev, prevU := math.Inf(-1), math.Inf(-1)
 	sumPMF := 0.0
 	for idx, u := range us {
-		onGrid := grid && idx < len(us)-8
-		two := int(math.Floor(2 * u))
+		onGrid := grid && idx < len(us)-nOff
+		uc := math.Max(-2, math.Min(u, max+2)) // the table lookup only needs the clamped point
+		two := int(math.Floor(2 * uc))
 		if !ties {
-			two = 2 * int(math.Floor(u))
+			two = 2 * int(math.Floor(uc))
 		}
 		// CDF
 		var got float64
@@ -93,7 +107,14 @@ func c02Judge(w *mon.W, c c02Case, full bool) {
 		if u >= max {
 			want = 1
 		}
-		if !w.Err("CDF", math.Abs(got-want), 1e-9) {
+		// relative to the value: the lower tail is summed directly and the
+		// tied counts are exact integers, so tiny masses must be right to
+		// rounding, not merely to 1e-9 absolute
+		floor := 1e-300
+		if ties {
+			floor = 1e-13 // tied counts go through Choose = exp(lgamma) above n = 20
+		}
+		if !w.Err("CDF", math.Abs(got-want), 1e-9*want+floor) {
 			bad("CDF", fmt.Sprintf("UDist{%d,%d,%v}.CDF(%v)=%.12g, exact %.12g", N1, N2, T, u, got, want), u)
 		}
 		if (u < 0 && got != 0) || (u >= max && got != 1) {
@@ -133,7 +154,7 @@ func c02Judge(w *mon.W, c c02Case, full bool) {
 			bad("panic-PMF", fmt.Sprintf("UDist{%d,%d,%v}.PMF(%v) panicked: %v", N1, N2, T, u, v), u)
 			continue
 		}
-		if !w.Err("PMF", math.Abs(pm-tab.PMF2(twoU)), 1e-9) {
+		if !w.Err("PMF", math.Abs(pm-tab.PMF2(twoU)), 1e-9*tab.PMF2(twoU)+floor) {
 			bad("PMF", fmt.Sprintf("UDist{%d,%d,%v}.PMF(%v)=%.12g, exact %.12g (attainable=%v)", N1, N2, T, u, pm, tab.PMF2(twoU), attainable), u)
 		}
 		if onGrid {
@@ -147,7 +168,7 @@ func c02Judge(w *mon.W, c c02Case, full bool) {
 				bad("panic-PMF", fmt.Sprintf("UDist{%d,%d,%v}.PMF(%v) panicked: %v", N2, N1, T, max-u, v), u)
 				continue
 			}
-			if math.Abs(pm-pm2) > 1e-9 {
+			if math.Abs(pm-pm2) > 1e-9*math.Max(pm, pm2)+floor {
 				bad("mirror", fmt.Sprintf("PMF_{%d,%d,%v}(%v)=%.12g but PMF_{%d,%d}(%v)=%.12g", N1, N2, T, u, pm, N2, N1, max-u, pm2), u)
 			}
 		}
@@ -170,7 +191,7 @@ func c02Judge(w *mon.W, c c02Case, full bool) {
 func c02Run(r *mon.Run) {
 	r.Rule("every (N1,N2,T) with N1+N2<=10 (thorough 14), T = nil, all-ones, every composition with >=2 parts; u on the half-integer grid -1..N1N2+1 plus 8 random reals; random large distributions up to 50+50 untied / 25+25 tied on 40 sampled grid points. Non-trivial: hits a class (K=2, leading tie group, tied non-palindromic, nil/all-ones T, feasibility edges); distinct by hash of (N1,N2,T,points).")
 	r.Assume("reference: subset enumeration (N<=14), 128-bit generating-function DP above, cross-checked at start-up")
-	r.Gate("K=2", "leading-tie-group", "untied-u-above-centre", "untied-u-below-centre", "tied-u-below-feasible-min", "T=nil", "T=all-ones", "large-untied", "large-tied")
+	r.Gate("recycled-T-buffer", "far-and-near-jump-points", "K=2", "leading-tie-group", "untied-u-above-centre", "untied-u-below-centre", "tied-u-below-feasible-min", "T=nil", "T=all-ones", "large-untied", "large-tied")
 	if err := ref.USelfTest(r.Pick(8, 9)); err != nil {
 		r.Inconclusive("reference self-test failed: " + err.Error())
 		return
@@ -212,12 +233,40 @@ func c02Run(r *mon.Run) {
 		c02Judge(w, c02Case{N1: nils[i][0], N2: nils[i][1]}, true)
 	})
 
+	// a tie vector held in a buffer that the caller refills: the result must
+	// follow the contents, not the identity of the slice
+	r.Parallel("recycled-T-buffer", r.Pick(300, 3000), func(w *mon.W, i int) {
+		rng := w.Rng
+		N := rng.Range(4, 9)
+		var ts [][]int
+		ref.Compositions(N, 2, func(T []int) { ts = append(ts, append([]int(nil), T...)) })
+		k := rng.Range(2, 4)
+		var same [][]int
+		want := ts[rng.Intn(len(ts))]
+		for _, t := range ts {
+			if len(t) == len(want) {
+				same = append(same, t)
+			}
+		}
+		buf := make([]int, len(want))
+		n1 := rng.Range(1, N-1)
+		w.Hit("recycled-T-buffer")
+		for round := 0; round < 3; round++ {
+			copy(buf, same[rng.Intn(len(same))])
+			c02Judge(w, c02Case{N1: n1, N2: N - n1, T: buf, Us: []float64{float64(rng.Intn(2*n1*(N-n1)+1)) / 2, rng.Uniform(0, float64(n1*(N-n1))), float64(n1*(N-n1)) / 2}}, false)
+		}
+		_ = k
+	})
+
 	nr := r.Pick(60, 600)
 	r.Parallel("random-large", nr, func(w *mon.W, i int) {
 		rng := w.Rng
 		var c c02Case
 		if i%2 == 0 {
 			c.N1, c.N2 = rng.Range(11, 50), rng.Range(11, 50)
+			if i%6 == 4 {
+				c.N1 = rng.Range(1, 10) // one small side: not covered by the exhaustive N<=10 (14) set
+			}
 			if i%8 == 0 {
 				c.N1 = 50
 			}
